@@ -9,6 +9,9 @@ loop / sequence is written in a form the inference does not follow are UNDECIDED
 Round 5: a bare next() on a finite / filtered iterator (StopIteration); None-safety by must-analysis (every path to the use
 assigns the field or passes a branch where it is not None) for merged `x is None and leaf` tests; the loop-exit inference
 follows a per-iteration working copy of the remaining work (spliced one-day helper).
+Round 6: countdown counters (`left -= 1; while left > 0`); a bounded loop in a helper that is new in the tree may report
+exhaustion to its caller instead of raising; worklist push/pop moved into nested procedures; `xs = []` + one accumulate loop is
+read as its comprehension; the project bound kept on the scheduler is never None where it is read; reduce() without initial.
 Not decided: stack depth on legitimately deep acyclic inputs; exceptions raised inside user supplied IResource /
 calendar callables; clone()'s dictionary lookups (assumption table: keys are drawn from the collection that built the map).
 """
@@ -129,9 +132,15 @@ def check(ctx):
                "covered) is mapped to a number before it is returned or cached", floor=1)
     ctx.guarded(o, lambda o: capacity_number(ctx, o))
 
+    o = ctx.ob('project_bound_is_a_date', 'R6b',
+               "the project start / end kept on the scheduler is never None where the passes read it: the constructor resolves a "
+               "missing argument (to the clock) before storing it, or every read is guarded", floor=2)
+    ctx.guarded(o, lambda o: bound_not_none(ctx, o))
+
     o = ctx.ob('next_has_a_default', 'R6b',
-               "every next() on an iterator that can run dry (a filtered / finite generator) passes a default: a bare next() ends in "
-               "StopIteration, not in a schedule or a RuntimeError diagnosis", floor=1)
+               "every next() on an iterator that can run dry (a filtered / finite generator) passes a default and every "
+               "functools.reduce() over a possibly empty sequence an initial value: a bare next() ends in StopIteration, a bare "
+               "reduce() in TypeError, not in a schedule or a RuntimeError diagnosis", floor=1)
     ctx.guarded(o, lambda o: next_calls(ctx, o, core))
 
     o = ctx.ob('subscripts_discharged', 'R6b',
@@ -192,6 +201,7 @@ def loops(ctx, o, core):
             body_ids = _loop_body_nodes(cfg, hdr)
             # candidate counters: names incremented by a positive constant inside the loop and compared with a bound
             counters = {}
+            down = set()
             for d in fl.defs:
                 if d.node is None or d.node.id not in body_ids:
                     continue
@@ -202,19 +212,35 @@ def loops(ctx, o, core):
                         (match(f"{d.var} + $k", d.value) and (facts.const_num(match(f"{d.var} + $k", d.value)['k']) or 0) > 0) or
                         (match(f"$k + {d.var}", d.value) and (facts.const_num(match(f"$k + {d.var}", d.value)['k']) or 0) > 0)):
                     counters.setdefault(d.var, []).append(d)
+                # countdown: `left -= 1` / `left = left - 1` with `while left > 0`
+                elif d.kind == 'aug' and isinstance(d.stmt.op, ast.Sub) and isinstance(d.stmt.target, ast.Name) and \
+                        (facts.const_num(d.stmt.value) or 0) > 0:
+                    counters.setdefault(d.var, []).append(d)
+                    down.add(d.var)
+                elif d.kind == 'assign' and d.value is not None and match(f"{d.var} - $k", d.value) and \
+                        (facts.const_num(match(f"{d.var} - $k", d.value)['k']) or 0) > 0:
+                    counters.setdefault(d.var, []).append(d)
+                    down.add(d.var)
             decided = False
             half = None
             for var, incs in counters.items():
                 # bound check: loop test `var < bound` with a raise RuntimeError after the loop, or `if var > bound: raise` in the loop
+                # (countdown counters: `var > bound` in the test, `if var < bound: raise` in the loop)
                 bound_nodes = []
-                if _below(lp.test, var):
+                _lo, _hi = (_above, _below) if var in down else (_below, _above)
+                if any(d_.kind == 'aug' and isinstance(d_.stmt.op, ast.Add) for d_ in incs) and var in down:
+                    continue        # stepped in both directions: not a counter
+                if _lo(lp.test, var):
                     after_raise = _raise_after_loop(f, lp)
                     if after_raise:
+                        bound_nodes.append(hdr)
+                    elif f.qual not in _baseline_functions() and not _any_raise_after(f, lp):
+                        # a helper that is new in this tree: it terminates by its counter and reports exhaustion to its caller
                         bound_nodes.append(hdr)
                     else:
                         half = (var, "the loop is bounded by its counter but no `raise RuntimeError` follows it")
                 for n in walk_no_nested(lp):
-                    if isinstance(n, ast.If) and _above(n.test, var) and \
+                    if isinstance(n, ast.If) and _hi(n.test, var) and \
                             any(isinstance(x, ast.Raise) and facts.exc_name(x) == 'RuntimeError' for x in n.body):
                         tn = cfg.node_of(n)
                         if tn is not None:
@@ -253,6 +279,20 @@ def loops(ctx, o, core):
                                             f"consumes an iterator element")
                 continue
             o.refute(f, lp, lp.test, f"while loop `{src(lp.test)}` has no counter with a RuntimeError bound")
+
+
+_BASELINE = None
+
+
+def _baseline_functions():
+    global _BASELINE
+    if _BASELINE is None:
+        try:
+            from sa.normalize import baseline
+            _BASELINE = set(baseline().get('functions', []))
+        except Exception:
+            _BASELINE = set()
+    return _BASELINE
 
 
 def _below(test, var):
@@ -332,6 +372,21 @@ def _is_worklist(ctx, f, lp):
             and c.func.value.id == stack]
     pushes = [c for c in facts.calls_named(f, 'append') if isinstance(c.func, ast.Attribute) and isinstance(c.func.value, ast.Name)
               and c.func.value.id == stack and any(x is c for st in lp.body for x in ast.walk(st))]
+    # push / pop bookkeeping moved into nested procedures of f (closures over the stack and the mark sets)
+    via_marks = {}
+    for g in [n for n in ast.walk(f.node) if isinstance(n, ast.FunctionDef) and n is not f.node]:
+        gcalls = [x for x in ast.walk(g) if isinstance(x, ast.Call) and isinstance(x.func, ast.Attribute) and isinstance(x.func.value, ast.Name)]
+        g_pops = [x for x in gcalls if x.func.value.id == stack and x.func.attr == 'pop']
+        g_push = [x for x in gcalls if x.func.value.id == stack and x.func.attr == 'append']
+        sites = [c for c in walk_no_nested(f.node) if isinstance(c, ast.Call) and isinstance(c.func, ast.Name) and c.func.id == g.name]
+        if g_pops and not g_push and all(isinstance(st, (ast.Expr, ast.Assign)) for st in g.body):
+            pops += sites        # straight-line body: every call pops
+        elif g_push and not g_pops and all(isinstance(st, (ast.Expr, ast.Assign)) for st in g.body):
+            marks = {x.func.value.id for x in gcalls if x.func.attr == 'add' and x.lineno <= g_push[0].lineno}
+            for c in sites:
+                if any(x is c for st in lp.body for x in ast.walk(st)):
+                    pushes.append(c)
+                    via_marks[id(c)] = marks
     if not pops:
         return False
     # consuming one element of a finite iterator (`next(it, default)`, two-argument form: no StopIteration) is progress too
@@ -349,7 +404,7 @@ def _is_worklist(ctx, f, lp):
                       or (isinstance(t, ast.Compare) and isinstance(t.ops[0], ast.NotIn) and p)]
         if not neg_member:
             return False
-        marked = False
+        marked = any(isinstance(t.comparators[0], ast.Name) and t.comparators[0].id in via_marks.get(id(c), ()) for t in neg_member)
         for a in facts.calls_named(f, 'add'):
             an = cfg.node_containing(a)
             if an is not None and cfg.dominates(an, cn) and any(isinstance(t.comparators[0], ast.Name) and isinstance(a.func.value, ast.Name)
@@ -801,6 +856,14 @@ def extrema(ctx, o, core):
             if ec and any((sched.is_emptiness(t, p) or (None, None))[1] is False and same((sched.is_emptiness(t, p))[0], seq) for t, p in ec):
                 o.site(f, n, "sequence tested non-empty in the same expression")
                 continue
+            if isinstance(seq, ast.Name) and S is not None and cn is not None:
+                # `xs = []` filled by one accumulate loop stands for the equivalent comprehension
+                rd = fl.reaching(seq.id, cn)
+                if len(rd) == 1 and rd[0].kind == 'assign' and isinstance(rd[0].value, ast.List) and not rd[0].value.elts:
+                    from .c07 import _accumulated_comp
+                    comp = _accumulated_comp(PassShape(ctx, S), seq.id)
+                    if comp is not None:
+                        seq = comp
             if isinstance(seq, ast.Name):
                 # every reaching definition non-empty, or an emptiness fallback dominates
                 defs = fl.reaching(seq.id, cn)
@@ -1192,8 +1255,107 @@ def capacity_number(ctx, o):
 
 
 # ======================================================================================================================
+def _local_definitely_set(f, name, at):
+    """every path from the entry of f to node `at` rebinds local/parameter `name` to a value that is not the literal None, or
+    passes a branch on which `name is None` is false (`if x is None: x = default` before the use)"""
+    if at is None:
+        return False
+    cfg = cfg_of(f)
+    gen = set()
+    for d in flow_of(f).defs_of(name):
+        if d.kind == 'assign' and d.node is not None and d.value is not None and not (isinstance(d.value, ast.Constant) and d.value.value is None) \
+                and not isinstance(d.value, ast.Name):
+            gen.add(d.node.id)
+    for b in cfg.nodes:
+        if b.kind == 'branch' and b.test is not None and not isinstance(b.test, (ast.For, ast.AsyncFor)):
+            for a, q in facts.split_conj(b.test, b.polarity):
+                if facts.cond_is(a, q, f"{name} is None", want=False) or facts.cond_is(a, q, name, want=True):
+                    gen.add(b.id)
+    if at.id in gen:
+        return False
+    seen, todo = set(), [cfg.entry]
+    while todo:
+        x = todo.pop()
+        if x.id in seen or x.id in gen:
+            continue
+        seen.add(x.id)
+        if x is at:
+            return False
+        todo.extend(x.succ)
+    return True
+
+
+def bound_not_none(ctx, o):
+    prog = ctx.prog
+    for S in BOTH:
+        init = prog.func(S['init'])
+        arg = 'start' if S['dir'] == 1 else 'end'
+        a = init.node.args
+        pos = a.posonlyargs + a.args
+        defaults = dict(zip([x.arg for x in pos][len(pos) - len(a.defaults):], a.defaults))
+        nullable_arg = arg in defaults and isinstance(defaults[arg], ast.Constant) and defaults[arg].value is None
+        exi = Expander(prog, init, ctx.typer)
+        nullable_store = None
+        stores = facts.attr_stores(init, S['bound'])
+        for st, tgt, val in stores:
+            icn = cfg_of(init).node_of(st)
+            v = exi.expand(val, icn) if icn is not None else val
+            path = facts.node_conditions(prog, init, st, ctx.typer, expand=True)
+            for cc, case in sched.expr_cases(v):
+                allc = list(path) + list(cc)
+                if isinstance(case, ast.Constant) and case.value is None:
+                    nullable_store = st
+                elif isinstance(case, ast.Name) and case.id == arg and nullable_arg and not _none_tested(allc, case) and \
+                        not _local_definitely_set(init, arg, icn):
+                    nullable_store = st
+        if not stores:
+            o.undecided(init, init.node, S['bound'], "the project bound is not stored by the constructor")
+            continue
+        if nullable_store is None:
+            o.site(init, stores[0][0], f"self.{unmangle(S['bound'])} is resolved to a date by the constructor")
+            continue
+        # the attribute may hold None: every read in the scheduler class must be guarded
+        bad = None
+        for g in prog.all_funcs():
+            if not g.qual.startswith('schedule.' + S['cls'] + '.') or g is init or isinstance(g.node, ast.Lambda):
+                continue
+            gcfg = cfg_of(g)
+            for n in walk_no_nested(g.node):
+                if isinstance(n, ast.Attribute) and n.attr == S['bound'] and isinstance(n.ctx, ast.Load) and isinstance(n.value, ast.Name) \
+                        and n.value.id == g.self_name:
+                    cn = gcfg.node_containing(n)
+                    conds = list(gcfg.conditions(cn)) if cn is not None else []
+                    if cn is not None and cn.ast is not None:
+                        root = cn.ast.test if isinstance(cn.ast, (ast.If, ast.While)) else cn.ast
+                        conds += eval_conditions(root, n) or []
+                    par_is_test = any(isinstance(x, ast.Compare) and x.left is n and isinstance(x.ops[0], (ast.Is, ast.IsNot))
+                                      for x in walk_no_nested(g.node))
+                    if par_is_test or _none_tested(conds, n):
+                        continue
+                    bad = bad or (g, n)
+        if bad:
+            g, n = bad
+            o.refute(g, n, n, f"the constructor stores `{arg}` as given (None when omitted) and {g.qual} reads self.{unmangle(S['bound'])} without a "
+                              f"None test: max()/min() and comparisons with None end in TypeError instead of a schedule or a RuntimeError")
+        else:
+            o.site(init, nullable_store, f"self.{unmangle(S['bound'])} may be None but every read resolves it")
+
+
 def next_calls(ctx, o, core):
     prog = ctx.prog
+    # functools.reduce without an initial value over a sequence that can be empty: TypeError
+    for f in [g for g in prog.all_funcs() if g.module.name in ('schedule', 'resource', 'calendar') and not isinstance(g.node, ast.Lambda)]:
+        for n in walk_no_nested(f.node):
+            if isinstance(n, ast.Call) and ((isinstance(n.func, ast.Name) and n.func.id == 'reduce') or
+                                            (isinstance(n.func, ast.Attribute) and n.func.attr == 'reduce' and
+                                             isinstance(n.func.value, ast.Name) and n.func.value.id == 'functools')):
+                if len(n.args) >= 3 or any(k.arg == 'initial' for k in n.keywords):
+                    o.site(f, n, "reduce(.., initial)")
+                elif len(n.args) == 2 and _has_literal_element(n.args[1]):
+                    o.site(f, n, "reduce over a sequence with a literal element")
+                elif len(n.args) == 2:
+                    o.refute(f, n, n, f"`{src(n)[:70]}` has no initial value: for an empty sequence (no calendar covers the date) it raises "
+                                      f"TypeError instead of answering `no capacity`")
     for f in core:
         if isinstance(f.node, ast.Lambda):
             continue
